@@ -44,7 +44,8 @@ def corpus_cases(prop):
     if os.path.isdir(d):
         for f in sorted(os.listdir(d)):
             if f.endswith('.json'):
-                c = json.load(open(os.path.join(d, f))); out.append((c['case_seed'], c.get('gen', 0)))
+                c = json.load(open(os.path.join(d, f)))
+                if 'case_seed' in c: out.append((c['case_seed'], c.get('gen', 0)))      # the others belong to other stages
     return out
 
 
